@@ -520,5 +520,47 @@ m("c02w-query-claims-rewards", "C02", "precompiles/distribution/query.go",
   extra=[("import (\n", "import (\n\tanteutils \"github.com/haqq-network/haqq/app/ante/utils\"\n")])
 M[-1]["tier"] = "whole"
 
+# ---------------- rules added from the wave-2/3 seeds ----------------
+m("c01-sort-by-prefix", "C01", "x/evm/statedb/journal.go",
+  "return bytes.Compare(keys[i].Bytes(), keys[j].Bytes()) < 0", "return bytes.Compare(keys[i][:8], keys[j][:8]) < 0",
+  "sortedDirties", "dirty accounts ordered by an address prefix: equal prefixes stay in map order")
+m("c03-eip712-any-signers", "C03", "app/ante/cosmos/eip712.go",
+  "\tif len(sigs) != 1 {", "\tif len(sigs) == 0 {", "single-signature", "EIP-712 route accepts several signers, verifies only the first")
+m("c03-convert-fresh-baseacc", "C03", "x/vesting/keeper/schedule.go",
+  "\t\tbaseAcc := ethAcc.GetBaseAccount()\n", "\t\tbaseAcc := authtypes.NewBaseAccountWithAddress(funded)\n\t\t_ = baseAcc.SetAccountNumber(ethAcc.GetAccountNumber())\n",
+  "fresh-base-account", "conversion into a vesting account restarts the sequence at 0")
+m("c04-no-limit-precheck", "C04", "precompiles/authorization/types.go",
+  "\tif stakeAuthz.MaxTokens != nil && amount.Amount.GT(stakeAuthz.MaxTokens.Amount) {\n\t\treturn nil, nil, fmt.Errorf(ErrExceededAllowance, amount.Amount, stakeAuthz.MaxTokens.Amount)\n\t}\n",
+  "\t_ = amount\n", "amount-within-limit", "the allowance is only enforced by Accept after the effect")
+m("c05-suicide-revert-const", "C05", "x/evm/statedb/journal.go",
+  "\t\tobj.suicided = ch.prev\n", "\t\tobj.suicided = false\n\t\t_ = ch.prev\n", "restores-recorded-value", "reverting a second SELFDESTRUCT clears the mark of the first")
+m("c06-reject-stops-at-first", "C06", "app/ante/cosmos/reject_msgs.go",
+  "\t\tif _, ok := msg.(*evmtypes.MsgEthereumTx); ok {\n", "\t\tif _, isEth := msg.(*evmtypes.MsgEthereumTx); !isEth {\n\t\t\tbreak\n\t\t}\n\t\tif _, ok := msg.(*evmtypes.MsgEthereumTx); ok {\n",
+  "every-message", "the reject scan stops at the first ordinary message")
+m("c07-floor-truncated", "C07", "app/ante/cosmos/min_price.go",
+  "fee := gp.Amount.Mul(gasLimit).Ceil().RoundInt()", "fee := gp.Amount.TruncateDec().Mul(gasLimit).Ceil().RoundInt()",
+  "floor-not-rounded-down", "fractional minimum gas price truncated before the floor is computed")
+m("c16-setwithdraw-fastpath", "C16", "precompiles/distribution/tx.go",
+  "\tmsgSrv := distributionkeeper.NewMsgServerImpl(p.distributionKeeper)\n\tif _, err = msgSrv.SetWithdrawAddress(sdk.WrapSDKContext(ctx), msg); err != nil {\n\t\treturn nil, err\n\t}\n",
+  "\tif msg.WithdrawAddress != msg.DelegatorAddress {\n\t\tmsgSrv := distributionkeeper.NewMsgServerImpl(p.distributionKeeper)\n\t\tif _, err = msgSrv.SetWithdrawAddress(sdk.WrapSDKContext(ctx), msg); err != nil {\n\t\t\treturn nil, err\n\t\t}\n\t}\n",
+  "native-call-on-every-success", "setWithdrawAddress(self, self) reports success without the native message")
+m("c16-query-on-live-ctx", "C16", "precompiles/distribution/query.go",
+  "\tres, err := querier.DelegationRewards(queryCtx, req)", "\t_ = queryCtx\n\tres, err := querier.DelegationRewards(ctx, req)",
+  "R6@", "the view method hands the transaction's context to the writing SDK query again")
+m("c16-delegation-recomputed", "C16", "precompiles/staking/query.go",
+  "\tres, err := queryServer.Delegation(sdk.WrapSDKContext(ctx), req)\n", "\tres, err := (*stakingtypes.QueryDelegationResponse)(nil), error(nil)\n\t_ = queryServer\n\tif d, found := p.stakingKeeper.GetDelegation(ctx, sdk.MustAccAddressFromBech32(req.DelegatorAddr), sdk.ValAddress(sdk.MustAccAddressFromBech32(req.DelegatorAddr))); found {\n\t\tres = &stakingtypes.QueryDelegationResponse{DelegationResponse: &stakingtypes.DelegationResponse{Delegation: d, Balance: sdk.NewCoin(p.stakingKeeper.BondDenom(ctx), d.Shares.TruncateInt())}}\n\t}\n",
+  "query-dispatch", "delegation query recomputed by the precompile instead of asking the native query server")
+m("c18-getsender-cached", "C18", "x/evm/types/msg.go",
+  "\tsigner := ethtypes.LatestSignerForChainID(chainID)\n\tfrom, err := signer.Sender(msg.AsTransaction())",
+  "\tif msg.From != \"\" && common.IsHexAddress(msg.From) {\n\t\treturn common.HexToAddress(msg.From), nil\n\t}\n\tsigner := ethtypes.LatestSignerForChainID(chainID)\n\tfrom, err := signer.Sender(msg.AsTransaction())",
+  "sender-recovered", "GetSender trusts the From field of the envelope")
+m("c19-import-trims", "C19", "x/liquidvesting/genesis.go",
+  "\tfor _, denom := range data.Denoms {\n\t\tk.SetDenom(ctx, denom)", "\tfor _, denom := range data.Denoms {\n\t\tif len(denom.LockupPeriods) > 0 && denom.LockupPeriods[0].Amount.IsZero() {\n\t\t\tdenom.LockupPeriods = denom.LockupPeriods[1:]\n\t\t}\n\t\tk.SetDenom(ctx, denom)",
+  "overwrites-Denom.LockupPeriods", "import drops an empty leading tranche: later tranches move earlier")
+m("c20-ethcall-keeper-chainid", "C20", "x/evm/keeper/grpc_query.go",
+  "\tchainID, err := getChainID(ctx, req.ChainId)\n\tif err != nil {\n\t\treturn nil, status.Error(codes.InvalidArgument, err.Error())\n\t}\n\tcfg, err := k.EVMConfig(ctx, GetProposerAddress(ctx, req.ProposerAddress), chainID)\n\tif err != nil {\n\t\treturn nil, status.Error(codes.Internal, err.Error())",
+  "\tchainID := k.ChainID()\n\tif req.ChainId != 0 {\n\t\tchainID = big.NewInt(req.ChainId)\n\t}\n\tcfg, err := k.EVMConfig(ctx, GetProposerAddress(ctx, req.ProposerAddress), chainID)\n\tif err != nil {\n\t\treturn nil, status.Error(codes.Internal, err.Error())",
+  "EthCall#EVMConfig-chain-id", "eth_call falls back to the keeper's in-memory chain id (nil right after a restart)")
+
 json.dump(M, open('/verif/mutants.json', 'w'), indent=1)
 print(len(M), "mutants written")
